@@ -148,7 +148,7 @@ func (s *reportSim) SpawnWarrior(wi int, startOffset Address) error {
 }
 
 func (s *reportSim) spawnWarrior(wi int, startOffset Address) error {
-	if wi > s.warriorCount {
+	if wi < 0 || wi >= s.warriorCount {
 		return fmt.Errorf("warrior index out of bounds")
 	}
 	w := s.warriors[wi]
